@@ -108,9 +108,10 @@ def drive(case):
             st = _random.getstate()
             try:
                 sampler = MoleculeSampler.from_fragment_string(case['s'], polymer_reactivities=case['react'],
+                                                               fragment_reactivities=case.get('freact', {}),
                                                                terminal_bonds=case.get('terminal', []),
                                                                seed=case['seed'])
-                final = sampler.sample(case['w'])
+                final = sampler.sample(case['w'], start_fragment=case.get('start'))
             finally:
                 _random.setstate(st)
     except Exception as exc_:      # noqa: BLE001 - every exception class is part of the observable
@@ -171,6 +172,29 @@ SAMPLER = [
     {'s': '{#A=[$]cc[$],#B=[$]c(C)c[$]}', 'react': {'$': 1.0}},
     {'s': '{#A=[$]=CC=[$],#B=[$]=C(C)C=[$]}', 'react': {'$2': 1.0}},
 ]
+# terminal_bonds: attaching a terminal fragment deletes the `bonding` attribute of the source atom, so
+# rebuild_h_atoms meets atoms WITHOUT `bonding` that carry a stale hcount
+SAMPLER_TERMINAL = [
+    {'s': '{#PMA=[>]CC[<]C(=O)OC[>A],#PEG=[<A]COC[>A][$A],#OH=[$B]O}', 'terminal': ['$A', '$B'],
+     'react': {'<': 0.1, '>': 0.1, '>A': 0.8, '<A': 0.8, '$A': 0.3, '$B': 0.0},
+     'freact': {'$A': {'$A': 0, '$B': 1.0}}, 'start': 'PMA', 'wts': [150, 300, 700]},
+    {'s': '{#VDF=[<]CC[>][$T],#FL=[$T]F}', 'terminal': ['$T'], 'react': {'<': 0.4, '>': 0.4, '$T': 0.2},
+     'start': 'VDF', 'wts': [100, 200, 400]},
+    {'s': '{#A=[<]CC[>][$T],#OH=[$T]O}', 'terminal': ['$T'], 'react': {'<': 0.3, '>': 0.3, '$T': 0.4},
+     'start': 'A', 'wts': [60, 120, 250]},
+    {'s': '{#S=[<]CC([>])c1ccccc1[$X],#M=[$X]C}', 'terminal': ['$X'], 'react': {'<': 0.35, '>': 0.35, '$X': 0.3},
+     'start': 'S', 'wts': [200, 400]},
+    {'s': '{#A=[<]NC([$R])C(=O)[>],#R=[$R]C[NH3+],#Q=[$R]CC(=O)[O-]}', 'terminal': ['$R'],
+     'react': {'<': 0.3, '>': 0.3, '$R': 0.4}, 'start': 'A', 'wts': [150, 300]},
+]
+# falsy attribute values on hydrogen-bearing atoms (weight 0 / 0.0) and on explicit hydrogens
+ZERO_WEIGHT = ['{[#SP4]1[#SP4][#SP1r]1}.{#SP4=[OH;0.5][C;0.1][$]C[$]O,#SP1r=[$]OC[$]CO}',
+               '{[#A][#B]}.{#A=CC[C;0][$],#B=[$][C;0]CO}', '{[#A][#B]}.{#A=CC[C;w=0][$],#B=[$]CO}',
+               '{[#A][#B]}.{#A=OC[C;w=0][!],#B=[!][C;w=0]CC}', '{[#A][#B]}.{#A=N[C;0]([$])[$],#B=[$]CC}',
+               '{[#A]}.{#A=[C;0]}', '{[#A]}.{#A=C[N;w=0.0]}', '{[#A]|3}.{#A=[$][C;0]C[$]}', '{[#A]}.{#A=C[H;0]}',
+               '{[#A][#B]}.{#A=C([H;w=0])[$],#B=[$][O;0]}', '{[#A][#H]}.{#A=[C;0][$],#H=[$][H]}',
+               '{[#A]}.{#A=[c;0]1ccccc1}', '{[#A][#B]}.{#A=[$][c;0]1ccccc1,#B=[$][N;0]}', '{[#A]}.{#A=[OH;0]C}',
+               '{[#A][#B]}.{#A=C[C;0.0][$],#B=[$][C;w=0.5]}']
 
 
 def rand_smiles_fragment(rng, charged_p=0.3):
@@ -206,8 +230,14 @@ def gen_case(rng):
         return {'kind': 'resolve', 'cls': 'charged', 's': base + '.{' + ','.join(defs) + '}', 'legacy': True}
     if r < 0.80:
         return {'kind': 'resolve', 'cls': 'aromatic-split', 's': rng.choice(AROM_SPLIT), 'legacy': True}
-    if r < 0.88:
+    if r < 0.86:
         return {'kind': 'resolve', 'cls': 'explicit-H', 's': rng.choice(EXPLICIT_H), 'legacy': True}
+    if r < 0.93:
+        return {'kind': 'resolve', 'cls': 'zero-weight', 's': rng.choice(ZERO_WEIGHT), 'legacy': True}
+    if rng.random() < 0.5:
+        c = dict(rng.choice(SAMPLER_TERMINAL))
+        c.update({'kind': 'sample', 'cls': 'sampler-terminal', 'seed': rng.randint(0, 10 ** 6), 'w': rng.choice(c.pop('wts'))})
+        return c
     c = dict(rng.choice(SAMPLER))
     c.update({'kind': 'sample', 'cls': 'sampler', 'seed': rng.randint(0, 10 ** 6), 'w': rng.choice([30, 60, 100, 150])})
     return c
@@ -244,6 +274,12 @@ class C09(common.Prop):
                 '{[#A]=[#B]}.{#A=[$]c1ccc2c(c1)[$],#B=[$]cccc2[$]}']]
         out.append({'kind': 'sample', 'cls': 'corpus', 's': '{#A=[$]CC[$],#B=[$]C(C)C[$]}', 'react': {'$': 1.0},
                     'seed': 1, 'w': 60})
+        out += [{'kind': 'resolve', 'cls': 'corpus', 's': s, 'legacy': True} for s in ZERO_WEIGHT[:5]]
+        for k, spec in enumerate(SAMPLER_TERMINAL[:3]):
+            for seed in (0, 1, 2):
+                c = dict(spec)
+                c.update({'kind': 'sample', 'cls': 'corpus', 'seed': seed, 'w': c.pop('wts')[1]})
+                out.append(c)
         return out
 
     def generate(self, ctx, n):
